@@ -341,13 +341,20 @@ def apply_time_range_vtodo(start, end, comp, tzify):
         return True
 
 
+def _as_list(value):
+    """A property that occurs once is returned as a single value, not a list."""
+    if isinstance(value, list):
+        return value
+    return [value]
+
+
 def apply_time_range_vfreebusy(start, end, comp, tzify):
     dtstart = comp.get("DTSTART")
     dtend = comp.get("DTEND")
     if dtstart and dtend:
         return start <= tzify(dtend.dt) and end > tzify(dtstart.dt)
 
-    for period in comp.get("FREEBUSY", []):
+    for period in _as_list(comp.get("FREEBUSY", [])):
         if start < period.end and end > period.start:
             return True
 
